@@ -156,3 +156,27 @@ def c13_local_error(inp, obligation):
         if not (float(got) >= 0.0) or abs(float(got) - float(want)) > 1e-9 * max(1.0, abs(float(want))):
             bad.append("%s estimator, norm %r, vectors %r: estimate %r, normalised norm of the absolute values %r" % (kind, inp["norm"], {k: v.tolist() for k, v in vecs.items()}, float(got), float(want)))
     return bool(bad), {"violations": bad[:4]}
+
+
+@handler("C13.point_count")
+def c13_point_count(inp, obligation):
+    """the chain get_total_num_points -> get_distinct_points -> get_f_dict_size on real objects: after evaluating a known number of distinct points (with repeats, singly and
+    in batches) the reported count is that number"""
+    import numpy as np
+    from sparseSpACE.Function import GenzCornerPeak
+    from sparseSpACE.GridOperation import Integration
+    from sparseSpACE.Grid import TrapezoidalGrid
+    from sparseSpACE.StandardCombi import StandardCombi
+    a, b = np.zeros(2), np.ones(2)
+    f = GenzCornerPeak(coeffs=np.array([1.0, 2.0]))
+    op = Integration(f=f, grid=TrapezoidalGrid(a, b), dim=2)
+    combi = StandardCombi(a, b, operation=op, print_output=False)
+    combi.scheme = []
+    pts = [(0.1, 0.2), (0.3, 0.4), (0.1, 0.2), (0.5, 0.5)]
+    for p in pts:
+        f(p)
+    f([(0.3, 0.4), (0.9, 0.8)])
+    want = len(set(pts) | {(0.9, 0.8)})
+    got = (f.get_f_dict_size(), op.get_distinct_points(combi.scheme), combi.get_total_num_points(distinct_function_evals=True))
+    bad = [] if all(int(g) == want for g in got) else ["%d distinct points evaluated; get_f_dict_size / get_distinct_points / get_total_num_points report %r" % (want, got)]
+    return bool(bad), {"violations": bad}
